@@ -138,6 +138,27 @@ def build_program(case):
         if case["idx"] % 2:  # ... and through a third symbol (attributes of its own name)
             nodes[u]["calls"].append({"t": t, "form": "mod_fl"})
         out["obs"]["programs_with_a_module_level_modifier_clone"] += 1
+    # a memento function calls a plain helper of the package through a module-level functools.partial object (an object
+    # without code of its own, whose repr carries a memory address)
+    cands = [(u, t) for u in range(len(nodes)) for t in range(u + 1, len(nodes))
+             if nodes[u]["kind"] == "memento" and nodes[u]["mod"] in ("a", "b") and nodes[t]["kind"] == "plain"
+             and nodes[t]["mod"] in ("a", "b") and progs.MODS.index(nodes[t]["mod"]) >= progs.MODS.index(nodes[u]["mod"])]
+    cands = [(u, t) for u, t in cands if not nodes[u].get("only_builtin_named_helper")]
+    if not cands and case["idx"] % 2 == 1:  # no plain helper at hand: the program gets one
+        us = [u for u in range(len(nodes)) if nodes[u]["kind"] == "memento" and nodes[u]["mod"] in ("a", "b")
+              and not nodes[u].get("only_builtin_named_helper")]
+        if us:
+            u = rng.choice(us)
+            nodes.append({"name": "hp%d" % len(nodes), "mod": nodes[u]["mod"], "kind": "plain", "version": None, "params": [["x", None]],
+                          "kwonly": [], "const": rng.randint(1, 9), "tconst": None, "sconst": None, "op": "+", "nested": None,
+                          "reads": [], "calls": [], "wrap_param": None, "swap": False})
+            cands = [(u, len(nodes) - 1)]
+    if cands and case["idx"] % 2 == 1:
+        u, t = rng.choice(cands)
+        name = "pt_%s" % nodes[t]["name"]
+        prog["aliases"].append({"name": name, "mod": nodes[u]["mod"], "target": t, "partial": True})
+        nodes[u]["calls"].append({"t": t, "form": "alias", "alias": name})
+        out["obs"]["programs_with_a_partial_object_around_a_helper"] += 1
     out["sets"]["features"] |= progs.features(prog)
     return prog, nodes, lasts, rng, out
 
